@@ -36,6 +36,7 @@ type progSet struct {
 	Fuel      int               `json:"fuel"`
 	MapOrders bool              `json:"maporders"`
 	Tag       string            `json:"tag"` // free text: family / what it exercises
+	Without   []string          `json:"without"` // functions removed from the registered table (C08)
 }
 
 type ptIn struct {
@@ -163,8 +164,12 @@ func astJSON(args []string) (any, error) {
 			return err
 		}
 		n++
+		wo := ps.Without
+		if wo == nil {
+			wo = []string{}
+		}
 		return enc.Encode(map[string]any{"id": ps.ID, "v2": ps.V2, "main": ps.Main, "scripts": scripts, "pt": pt,
-			"fuel": ps.Fuel, "maporders": ps.MapOrders})
+			"fuel": ps.Fuel, "maporders": ps.MapOrders, "without": wo})
 	})
 	if len(skipped) > 20 {
 		skipped = append(skipped[:20], fmt.Sprintf("... %d more", len(skipped)-20))
